@@ -127,22 +127,101 @@ Section Facts.
   Qed.
 End Facts.
 
-(* ---------------------------------------------------------------- the honest writer *)
+(* ---------------------------------------------------------------- the write phase of Store *)
 
-Lemma accept_unlimited used chunks : accept None used chunks = (concat chunks, false).
+(* the honest writer accepts everything, whatever the latch and the encoder do *)
+Lemma write_all_honest latch ignored used chunks :
+  write_all latch ignored None [] used false false chunks = (concat chunks, concat chunks, false, false).
 Proof.
-  revert used; induction chunks as [|c r IH]; intros used; cbn [accept concat]; [reflexivity|].
-  now rewrite IH.
+  revert used; induction chunks as [|c r IH]; intros used; cbn [write_all concat]; [reflexivity|].
+  rewrite andb_false_r. cbn [orb negb tl]. now rewrite IH.
 Qed.
 
-(* a failing writer accepted a strict part of the output; a writer that did not fail, all of it *)
-Lemma accept_ok cap used chunks p : accept cap used chunks = (p, false) -> p = concat chunks.
+(* once the latch holds an error (and the tree has the latch), the phase ends in an error *)
+Lemma write_all_latched ignored cap sched used stuck chunks w h e l :
+  write_all true ignored cap sched used stuck true chunks = (w, h, e, l) -> e = true \/ l = true.
 Proof.
-  revert used p; induction chunks as [|c r IH]; intros used p; cbn [accept concat].
-  - now intros E; inversion E.
-  - destruct (match cap with None => true | Some k => used + lenN c <=? k end); [|discriminate].
-    destruct (accept cap (used + lenN c) r) as [q f] eqn:A. intros E; inversion E; subst.
-    now rewrite (IH _ _ A).
+  revert sched used stuck w h e l; induction chunks as [|c r IH]; intros sched used stuck w h e l;
+    cbn [write_all andb].
+  - intros E; inversion E; auto.
+  - destruct ignored; [apply IH|]. intros E; inversion E; auto.
+Qed.
+
+(* with the latch, or with an encoder that stops at a failed write: if the phase ends without an
+   error, the writer accepted — and the hasher saw — exactly the encoder's output *)
+Lemma write_all_clean latch ignored cap sched used stuck chunks w h l :
+  latch || negb ignored = true ->
+  write_all latch ignored cap sched used stuck false chunks = (w, h, false, l) ->
+  latch && l = false ->
+  w = concat chunks /\ h = concat chunks.
+Proof.
+  intros Hm. revert sched used stuck w h l; induction chunks as [|c r IH]; intros sched used stuck w h l;
+    cbn [write_all concat].
+  - intros E _; inversion E; auto.
+  - rewrite andb_false_r.
+    set (fits := match cap with None => true | Some k => used + lenN c <=? k end).
+    set (stuck' := stuck || negb fits).
+    assert (OKc : forall w h l,
+              (let '(w0, h0, e0, l0) := write_all latch ignored cap (tl sched) (used + lenN c) stuck' false r in
+               (c ++ w0, c ++ h0, e0, l0)) = (w, h, false, l) ->
+              latch && l = false -> w = c ++ concat r /\ h = c ++ concat r).
+    { intros w1 h1 l1.
+      destruct (write_all latch ignored cap (tl sched) (used + lenN c) stuck' false r) as [[[w0 h0] e0] l0] eqn:R.
+      intros E L; inversion E; subst. destruct (IH _ _ _ _ _ _ R L) as [-> ->]. auto. }
+    assert (FAIL : forall used' p w h l,
+              (if ignored then
+                 let '(w0, h0, e0, l0) := write_all latch ignored cap (tl sched) used' stuck' true r in
+                 (p ++ w0, h0, e0, l0)
+               else (p, [], true, true)) = (w, h, false, l) ->
+              latch && l = false -> False).
+    { intros used' p w1 h1 l1. destruct ignored; [|intros E; inversion E].
+      cbn in Hm. rewrite orb_false_r in Hm. subst latch.
+      destruct (write_all true true cap (tl sched) used' stuck' true r) as [[[w0 h0] e0] l0] eqn:R.
+      intros E L; inversion E; subst. cbn in L. subst.
+      apply write_all_latched in R as [R|R]; discriminate. }
+    destruct (if stuck' then WFail else match sched with a :: _ => a | [] => WOk end) as [| |n].
+    + apply OKc.
+    + intros E L. exfalso. apply (FAIL used [] w h l); auto.
+      destruct ignored; [|exact E].
+      destruct (write_all latch true cap (tl sched) used stuck' true r) as [[[w0 h0] e0] l0]. exact E.
+    + destruct (lenN c <=? n); [apply OKc|].
+      intros E L. exfalso. eapply (FAIL (used + n) (prefixN n c)); eauto.
+Qed.
+
+(* the capacity-limited writer never accepts more than its capacity *)
+Lemma write_all_cap latch ignored k sched used stuck latched chunks w h e l :
+  used <= k ->
+  write_all latch ignored (Some k) sched used stuck latched chunks = (w, h, e, l) ->
+  used + lenN w <= k.
+Proof.
+  revert sched used stuck latched w h e l; induction chunks as [|c r IH];
+    intros sched used stuck latched w h e l U; cbn [write_all].
+  - intros E; inversion E; subst. unfold lenN; cbn. lia.
+  - destruct (latch && latched).
+    + destruct ignored; [apply IH; auto|]. intros E; inversion E; subst. unfold lenN; cbn. lia.
+    + destruct (N.leb_spec (used + lenN c) k) as [F|F]; cbn [negb].
+      * rewrite orb_false_r.
+        assert (OKc : forall w h e l,
+                  (let '(w0, h0, e0, l0) := write_all latch ignored (Some k) (tl sched) (used + lenN c) stuck latched r in
+                   (c ++ w0, c ++ h0, e0, l0)) = (w, h, e, l) -> used + lenN w <= k).
+        { intros w1 h1 e1 l1.
+          destruct (write_all latch ignored (Some k) (tl sched) (used + lenN c) stuck latched r) as [[[w0 h0] e0] l0] eqn:R.
+          intros E; inversion E; subst. pose proof (IH _ _ _ _ _ _ _ _ F R). rewrite lenN_app. lia. }
+        destruct (if stuck then WFail else match sched with a :: _ => a | [] => WOk end) as [| |n].
+        -- apply OKc.
+        -- destruct ignored; [apply IH; auto|]. intros E; inversion E; subst. unfold lenN; cbn. lia.
+        -- destruct (N.leb_spec (lenN c) n) as [G|G]; [apply OKc|].
+           assert (P : lenN (prefixN n c) = n).
+           { unfold prefixN. rewrite take_spec. destruct (N.ltb_spec (lenN c) n); [lia|].
+             unfold lenN in *. rewrite firstn_length. lia. }
+           assert (U' : used + n <= k) by lia.
+           destruct ignored.
+           ++ destruct (write_all latch true (Some k) (tl sched) (used + n) stuck true r) as [[[w0 h0] e0] l0] eqn:R.
+              pose proof (IH _ _ _ _ _ _ _ _ U' R) as Q.
+              intros E; inversion E; subst. rewrite lenN_app, P. lia.
+           ++ intros E; inversion E; subst. rewrite P. lia.
+      * rewrite orb_true_r.
+        destruct ignored; [apply IH; auto|]. intros E; inversion E; subst. unfold lenN; cbn. lia.
 Qed.
 
 (* ---------------------------------------------------------------- storage as a finite map *)
